@@ -905,12 +905,21 @@ func ruleAvgInfinityGuard(r *Run) {
 	}
 	avgs := []cls{{"finite", false, false, true}, {"+Inf", true, false, true}, {"-Inf", true, false, false}}
 	vals := []cls{{"finite", false, false, true}, {"+Inf", true, false, true}, {"-Inf", true, false, false}, {"NaN", false, true, false}}
-	which := func(v ssa.Value) string {
+	var cw *feWalker
+	var cst *feState
+	res := func(v ssa.Value) ssa.Value {
 		v = unspill(v)
+		if cw != nil && cst != nil {
+			v = unspill(cw.evalVal(cst, v).V)
+		}
+		return v
+	}
+	which := func(v ssa.Value) string {
+		v = res(v)
 		if v == ssa.Value(fn.Params[1]) {
 			return "v"
 		}
-		if f, base, ok := loadOfField(v); ok && f == "avg" && unspill(base) == ssa.Value(fn.Params[0]) {
+		if f, base, ok := loadOfField(v); ok && f == "avg" && res(base) == ssa.Value(fn.Params[0]) {
 			return "avg"
 		}
 		return ""
@@ -926,6 +935,7 @@ func ruleAvgInfinityGuard(r *Run) {
 				return v
 			}
 			hook := func(w *feWalker, st *feState, x ssa.Value) (constant.Value, bool) {
+				cw, cst = w, st
 				switch y := x.(type) {
 				case *ssa.Call:
 					pk, nm := calleePkgName(y)
@@ -977,7 +987,7 @@ func ruleAvgInfinityGuard(r *Run) {
 				}
 				return nil, false
 			}
-			w := &feWalker{Fn: fn, Hook: hook, MaxPath: 2000}
+			w := &feWalker{Fn: fn, Hook: hook, MaxPath: 2000, Inline: inlineHelpers(fn)}
 			skip, fold := false, false
 			for _, e := range w.Run() {
 				updated := false
